@@ -595,6 +595,9 @@ def run(run, model):
     run.try_rule(r06_10, model)
     run.try_rule(r06_11, model)
     run.try_rule(r06_13, model)
+    # the rewriter that resolves nested type switches reaches every nested statement form (shared with C02 R02.22)
+    from rules import c02 as _c02n
+    run.try_rule(_c02n.r02_22, model)
     from rules import c05 as _c05
     run.try_rule(_c05.r05_15, model)
     from rules import c08
